@@ -159,9 +159,25 @@ class ParserD(vparse.Parser):
         return super().module()
 
 
+def strict_separators(toks):
+    """the shared parser treats the commas of parameter port lists, port lists, connection lists and parameter overrides as
+    optional; IEEE 1364-2005 (A.1.3, A.4.1) does not: every list element but the first follows a comma"""
+    prev = None
+    for kind, t in toks:
+        if t in ('parameter', 'input', 'output', 'inout', '.') and kind in ('id', 'op'):
+            if t == 'parameter' and prev in ('(', ','):
+                pass
+            elif t == 'parameter':
+                raise vparse.VParseError(f'missing separator before `parameter` (after {prev!r}) in a module parameter port list')
+            elif prev not in ('(', ','):
+                raise vparse.VParseError(f'missing separator before {t!r} (after {prev!r}) in a port / connection list')
+        prev = t
+
+
 def parse_d(text):
-    """-> (tree, pdefs)"""
+    """-> (tree, pdefs); raises VParseError also for a missing list separator"""
     p = ParserD(text)
+    strict_separators(p.toks)
     return p.design(), p.pdefs
 
 
